@@ -372,7 +372,7 @@ def run_expr(src_expr: str, bindings: dict, observer=snapshot):
 VALUE_POOL = [
     [2, True, 1], [True, 1], [1, True, 0, False], (1, 2), [], (), {1, 2}, {1: "a", 2: "aa"}, 3, None, "aa", True,
     [1, 2, 3], [3, 1, 2], ["aa", "a"], [None], [(1, 2), (3, 4)], [[1], [2]], {True}, {1: 0}, [0, False], Obj(1), Obj(2),
-    [1], (True,), [2, 1],
+    [1], (True,), [2, 1], 1, 0, {1, 2, 3}, {3},
 ]
 
 
@@ -381,7 +381,8 @@ def fixed_envs():
     e = []
     for a, b, c in [(0, 1, 2), (1, 0, 12), (2, 12, 13), (12, 13, 0), (3, 4, 5), (13, 2, 25), (4, 5, 3), (5, 3, 4),
                     (6, 0, 1), (7, 19, 7), (8, 9, 10), (9, 8, 21), (10, 11, 22), (21, 22, 8), (14, 15, 16),
-                    (16, 14, 15), (17, 18, 19), (20, 0, 3), (23, 24, 0), (25, 0, 23), (1, 2, 0)]:
+                    (16, 14, 15), (17, 18, 19), (20, 0, 3), (23, 24, 0), (25, 0, 23), (1, 2, 0), (26, 27, 6), (27, 26, 28),
+                    (6, 28, 18), (28, 6, 26), (6, 29, 1), (29, 6, 2)]:
         e.append({"v1": VALUE_POOL[a], "v2": VALUE_POOL[b], "v3": VALUE_POOL[c], "v4": VALUE_POOL[(a + 5) % len(VALUE_POOL)],
                   "v5": VALUE_POOL[(b + 7) % len(VALUE_POOL)]})
     return e
@@ -721,13 +722,16 @@ def _has_obj(case):
 
 
 def _zip_lengths(case):
-    lens = set()
-    for v in case["env"].values():
-        try:
-            lens.add(len(v))
-        except TypeError:
-            pass
-    return len(lens) > 1 or "exc" in case["after"]
+    """the arguments of the zip call yield different numbers of items under the failing valuation"""
+    tree = ast.parse(case["source"])
+    for node in ast.walk(tree):
+        if isinstance(node, ast.Call) and func_txt(node.func) in ("zip", "zip_longest", "itertools.zip_longest"):
+            lens = set()
+            for a in node.args:
+                v, _ = run_expr(ast.unparse(a), case["env"], lambda x: len(list(x)))
+                lens.add(repr(v))
+            return len(lens) > 1
+    return False
 
 
 def _distinguishable_equal(v, depth=0):
@@ -775,6 +779,47 @@ def match_finding(kf, site, case):
         except Exception:  # noqa
             continue
     return None
+
+
+# ---------------------------------------------------------------------------------------------
+# witness programs for rules of this tranche that have no Gallina model: (finding id, site, program)
+WITNESSES = [
+    ("F02x-18", "fixes.simplify_redundant_lambda",
+     "def f(x):\n    return 1\ng = lambda x: f(x)\ndef f(x):\n    return 2\nprint(g(0))\n"),
+]
+
+
+def run_program(src: str) -> str:
+    import contextlib
+    import io
+    out = io.StringIO()
+    try:
+        with contextlib.redirect_stdout(out):
+            exec(compile(src, "<w>", "exec"), {"__name__": "w"})
+    except Exception as e:  # noqa
+        return out.getvalue() + f"<raised {type(e).__name__}>"
+    return out.getvalue()
+
+
+def check_witnesses(run, mods, kf) -> int:
+    n = 0
+    for fid, site, src in WITNESSES:
+        m, f = site.split(".")
+        with common.quiet():
+            new = getattr(mods[m], f)(src)
+        before, after = run_program(src), run_program(new)
+        n += 1
+        listed = [x for x in kf if x.kind == "finding" and x.id == fid and x.fields.get("site") == site]
+        if before != after:
+            if listed:
+                run.known_finding(fid, f"{listed[0].text} [witness prints {before!r} before, {after!r} after]")
+            else:
+                run.violation({"kind": "property-oracle", "site": site, "source": src, "output": new,
+                               "problem": f"stdout {before!r} vs {after!r}",
+                               "explanation": "witness program of an unmodelled rule prints something else after the rewrite"}, True)
+        elif listed:
+            common.log(f"note: known finding {fid} no longer reproduces")
+    return n
 
 
 # ---------------------------------------------------------------------------------------------
@@ -922,6 +967,7 @@ def check(run, mods, wd, rnd) -> dict:
                 reproduced.setdefault(m.id, (m, []))[1].append(f)
     for c in crashes:
         failures.append((".".join(RULES[c[0]]), {"source": c[3], "problem": f"the rule generator raised {c[2][0][1]}"}))
+    n_wit = check_witnesses(run, mods, kf)
     for fid, (f, hits) in sorted(reproduced.items()):
         run.known_finding(fid, f"{f.text} [{len(hits)} instances, e.g. {hits[0]['problem'][:300]}]")
     for f in kf:
@@ -956,7 +1002,7 @@ def check(run, mods, wd, rnd) -> dict:
         "modelled_rules": [".".join(v) for v in RULES.values()],
         "histogram": dict(hist), "semantic_cases": len(sem), "semantic_gaps": sem_gap,
         "semantic_mismatches": len(sem_bad), "correspondence_disagreements": len(disagreements),
-        "oracle_failures": len(failures), "skipped_unsupported": skipped, "timings_cumulative": timings,
+        "oracle_failures": len(failures), "skipped_unsupported": skipped, "witness_programs": n_wit, "timings_cumulative": timings,
     }
 
 
